@@ -293,6 +293,47 @@ func c07One(sc *c07Scn, idx int) verdict {
 		return v
 	}
 
+	if sc.State == "reopen" {
+		// the same driver object is opened again: a new session that works, and closes, like the first one
+		var oerr, cerr error
+
+		fin, pan := withWatchdog(6*time.Second, func() {
+			switch {
+			case s.nd != nil:
+				if oerr = s.nd.Open(); oerr == nil {
+					_, cerr = s.nd.Driver.SendCommand("show v7")
+				}
+			case s.gd != nil:
+				if oerr = s.gd.Open(); oerr == nil {
+					_, cerr = s.gd.SendCommand("show v7")
+				}
+			default:
+				if oerr = s.nc.Open(); oerr == nil {
+					_, cerr = s.nc.Get("")
+				}
+			}
+		})
+
+		switch {
+		case !fin:
+			fail(&v, sigBase+":reopen-hangs", "Open / first operation after Close did not return")
+		case pan != nil:
+			fail(&v, sigBase+":reopen-panics", "Open after Close panicked: %v", pan)
+		case oerr != nil || cerr != nil:
+			fail(&v, sigBase+":reopen-fails", "after Close: Open -> %v, first operation -> %v", oerr, cerr)
+		}
+
+		if v.OK {
+			if fin2, pan2, _ := closeOne(); !fin2 || pan2 != nil {
+				fail(&v, sigBase+":reopen-close", "Close of the second session: returned=%v panic=%v", fin2, pan2)
+			}
+		}
+
+		if !v.OK {
+			return v
+		}
+	}
+
 	if opStarted {
 		select {
 		case e := <-opDone:
